@@ -222,6 +222,11 @@ func classify(oracle string, small string, w int) string {
 			// the first child of a list item (blank first line + shortened marker)
 			return "fmt-html-block-leading-space-first-in-list-item"
 		}
+		if op.Type == md.OpHeading && headingEndsInBraceGroup(op) {
+			// heading text that ends in a "{...}" group: must not be written so
+			// that it reads as pkg/md's heading-attribute extension
+			return "fmt-heading-text-ending-in-brace-group"
+		}
 		if op.Type == md.OpParagraph && len(op.Content) >= 2 && op.Content[1].Type == md.OpRawHTML {
 			f := op.Content[0]
 			if f.Type == md.OpNewLine || (f.Type == md.OpText && strings.TrimSpace(f.Text) == "") {
@@ -333,7 +338,7 @@ func Spec() *mon.Spec {
 		ID:            "C36",
 		SpinViolation: true,
 		Level:         "exploration",
-		Rule: "Inputs: every CommonMark spec example, the package's supplemental formatter cases and the checked-in fuzz corpus at widths {0,1,2,5,20,51,80,random,corpus width}; grammar-generated documents, inline paragraphs and token soups (internal/gen/markdown.go) at random widths; 1-4 byte-level mutations of the seeds; targeted documents: links/images whose titles are drawn from both quote kinds, parentheses, backslashes, escapes and character references in all three title delimiters, and paragraphs whose continuation lines and words (reflow break points, widths 1-12) are block-marker lookalikes (1. 01. 001) 0. 10. - + * # > === --- fences, HTML, with and without escapes), also inside block quotes and list items. " +
+		Rule: "Inputs: every CommonMark spec example, the package's supplemental formatter cases and the checked-in fuzz corpus at widths {0,1,2,5,20,51,80,random,corpus width}; grammar-generated documents, inline paragraphs and token soups (internal/gen/markdown.go) at random widths; 1-4 byte-level mutations of the seeds; targeted documents: links/images whose titles are drawn from both quote kinds, parentheses, backslashes, escapes and character references in all three title delimiters, and paragraphs whose continuation lines and words (reflow break points, widths 1-12) are block-marker lookalikes (1. 01. 001) 0. 10. - + * # > === --- fences, HTML, with and without escapes), also inside block quotes and list items; ATX headings whose text ends in a '{...}' group in every escaping variant (backslash, character reference, code span, real attribute, with closers). " +
 			"Skipped exactly as the maintainers' fuzz targets do: invalid UTF-8, tabs, FmtCodec.Unsupported() != nil. Oracles: html(fmt(x)) == html(x) (width <= 0: exact; width > 0: modulo whitespace inside <p> and around <br />, input without <p>/</p>); fmt(fmt_w(x)) == fmt_w(x); with width > 0 and no heading/code/HTML block every line wider than the width has no space after its markers or contains '<', a link or a code span. " +
 			"Non-trivial: distinct (input, width) pairs that were decided and whose formatted text differs from the input.",
 		Assumptions: []string{
@@ -371,6 +376,8 @@ func Spec() *mon.Spec {
 			"linestart_escaped_in_output":         8000,
 			"linestart_escaped_in_reflow_output":  7000,
 			"linestart_leading_zero_one":          2000,
+			"heading_text_ends_in_brace_group":    1500,
+			"heading_with_attribute":              1500,
 		},
 	}
 }
